@@ -235,6 +235,18 @@ func c19Bodies() []c19Body {
 			}})
 		}
 	}
+	// every character class the JSON encoder escapes, with DIFFERENT characters of each class in the two bodies (escape
+	// sequences assembled in a shared buffer are invisible when both threads write the same sequence)
+	escStrings := [2][]string{{"line\u2028sep", "a<b", "ctl\x01", "q\"", "t\t", "é"}, {"para\u2029sep", "a>b&", "ctl\x1f", "b\\", "n\n", "ü"}}
+	for i := 0; i < 2; i++ {
+		i := i
+		out = append(out, c19Body{name: fmt.Sprintf("Fold(escaped strings #%d)->json", i+1), run: func(_ *gotype.Iterator, buf *bytes.Buffer) string {
+			if err := gotype.Fold(escStrings[i], codecJSON.NewEnc(buf, 0)); err != nil {
+				return "error: " + err.Error()
+			}
+			return fmt.Sprintf("%x", buf.Bytes())
+		}})
+	}
 	for _, cd := range codecs[:2] {
 		for i := 0; i < 2; i++ {
 			cd, i := cd, i
